@@ -63,6 +63,17 @@ let run_fwd () =
             let arr = (m.lc_kind = KArray) in
             let exp = [show_call (if arr then "aa" else "an") m; show_call (if arr then "da" else "dn") m] in
             if leafs <> exp then diverge ("model leaf calls " ^ String.concat " " exp) line
+          | _ :: "mra" :: bytes :: al :: _ ->
+            (* memory_resource_allocator (WNodeOnly) over a recording resource (leaf 9): a node request, an array of three through
+               the traits, two 24-byte objects through std_allocator: each reaches the resource as one node, and comes back the same *)
+            incr total;
+            let b = int_of_string bytes and a = int_of_string al in
+            let nine = nat_of_int 9 in
+            let r1 = forward [WNodeOnly] { lc_leaf = nine; lc_kind = KNode; lc_count = zi 1; lc_size = zi b; lc_align = zi a } in
+            let r2 = forward [WNodeOnly] { lc_leaf = nine; lc_kind = KArray; lc_count = zi 3; lc_size = zi b; lc_align = zi a } in
+            let r3 = forward [WStd (zi 24, zi 1); WNodeOnly] { lc_leaf = nine; lc_kind = KNode; lc_count = zi 2; lc_size = zi 0; lc_align = zi 0 } in
+            let exp = List.concat_map (fun m -> [show_call "an" m; show_call "dn" m]) [r1; r2; r3] in
+            if leafs <> exp then diverge ("model calls at the memory resource " ^ String.concat " " exp) line
           | _ :: "uniq" :: n :: _ ->
             incr total;
             let n = max 1 (int_of_string n) in
